@@ -23,14 +23,14 @@ func c16Race(args []string) {
 	if thorough {
 		rounds = 100
 	}
-	pool := c16Pool()
 	for _, sc := range scs {
 		fmt.Printf("SCENARIO %s\n", strings.Join(sc.ops(), " || "))
 		solo := make([]string, len(sc.Calls))
 		for i, c := range sc.Calls {
-			solo[i] = c.run(c16Pool())
+			solo[i] = c.run(c16Fresh(sc))
 		}
 		for r := 0; r < rounds; r++ {
+			pool := c16Fresh(sc) // fresh objects: first-use effects are raced in every round
 			var start, done sync.WaitGroup
 			start.Add(1)
 			outs := make([]string, len(sc.Calls))
